@@ -24,7 +24,7 @@ func init() {
 			"(R7) Signal.ch is assigned only on a branch where the channel-created bit of a status value read under the mutex is clear (so every observer gets the same channel), close(s.ch) runs only where that bit was set (so the shared, already closed sentinel is never closed), and wherever the sentinel is installed the state that disables a later close is recorded in the same critical section.",
 		NotDecided:  "linearisability of Set/Get/Err/IsSet/Signal/Wait and of the lazy channel under the Go memory model for all interleavings: these are the orderings such an argument needs, not the argument.",
 		Assumptions: []string{"sync/atomic loads and stores are sequentially consistent (Go memory model); sync.Mutex provides the usual happens-before edges"},
-		Rules: []Rule{
+		Rules: append([]Rule{
 			{ID: "C19.R1", Doc: "publication order in setSlow / signalSlow / doSlow; no store to published fields after the flag", Run: c19r1},
 			{ID: "C19.R2", Doc: "plain accesses of Signal.err/ch and Chan.ch/closed: writes under the mutex, reads under it / after it / behind the matching flag bit", Run: c19r2},
 			{ID: "C19.R3", Doc: "first set wins: setSlow body guarded by the error bit tested under the mutex; ok only from that branch; status written atomically only", Run: c19r3},
@@ -32,7 +32,7 @@ func init() {
 			{ID: "C19.R6", Doc: "every Signal accessor decides from ONE atomic snapshot of the status word (no result pair assembled from two loads)", Run: c19r6},
 			{ID: "C19.R5", Doc: "lazy channel: the initialiser runs only if done is still clear when re-tested under Chan.mu (first user wins)", Run: c19r5},
 			{ID: "C19.R7", Doc: "a Signal's channel is installed once (only while the channel-created bit, read under the mutex, is clear) and closed only if that bit was set; the shared closed sentinel is installed together with the state that disables close()", Run: c19r7},
-		},
+		}, disciplineRules("C19", "drpcsignal")[1:]...),
 	})
 }
 
